@@ -286,3 +286,97 @@ func verif_C15_rehello() {
 	rl := string(vc.out[mark:])
 	verifAssert(strings.Contains(rl, " NOTIFY=") == has["DSN"] && strings.Contains(rl, " ORCPT=") == has["DSN"], "C15.rehello-rcpt-dsn-iff-advertised-now")
 }
+
+// vmechClient: a SASL client mechanism whose NAME is chosen by the harness.
+type vmechClient struct {
+	name string
+	ir   []byte
+}
+
+func (m *vmechClient) Start() (string, []byte, error) { return m.name, m.ir, nil }
+func (m *vmechClient) Next(challenge []byte) ([]byte, error) {
+	return []byte("r"), nil
+}
+
+// verif_C15_auth_name: Auth with a mechanism whose name holds arbitrary octets
+// (a '%', CR, LF, anything). The AUTH step writes exactly one line that
+// carries the name and the initial response as given - or nothing, with a
+// local error; no octet of the name can start a second line or be rewritten
+// on the way out.
+func verif_C15_auth_name() {
+	L := verifBound(2, 3)
+	mid := nondetString(L)
+	name := "X" + mid + "Y"
+	withIR := nondetBool()
+	m := &vmechClient{name: name}
+	if withIR {
+		m.ir = []byte("ab")
+	}
+	c, vc := verifClient("235 2.7.0 ok\r\n", map[string]string{"AUTH": name})
+	err := c.Auth(m)
+	verifObserve("c15auth", name, vc.out, err == nil)
+	if !verifOneLineOrNothing(vc.out, err, "C15") {
+		verifReach("C15.auth-name-local-error")
+		return
+	}
+	verifReach("C15.auth-name-line")
+	want := "AUTH " + name
+	if withIR {
+		want += " YWI="
+	}
+	// (the client trims white space around the assembled line)
+	verifAssert(string(vc.out) == strings.TrimSpace(want)+"\r\n", "C15.auth-line-carries-the-name-as-given")
+}
+
+// verif_C15_after_refusal: a Mail or Rcpt call that is refused LOCALLY (an
+// option the server did not offer, a malformed option value) writes nothing -
+// and leaves nothing behind: the next Mail or Rcpt, on the same client or on
+// another one in the same process, writes exactly its own line.
+func verif_C15_after_refusal() {
+	ext := map[string]string{"8BITMIME": "", "SIZE": "1000", "DSN": "", "AUTH": "PLAIN"}
+	mk := func() (*Client, *vconn) {
+		e := map[string]string{}
+		for k, v := range ext {
+			e[k] = v
+		}
+		return verifClient("250 2.0.0 ok\r\n250 2.0.0 ok\r\n", e)
+	}
+	c1, vc1 := mk()
+	bad := "b\xc3\xa9d"
+	var err error
+	switch verifChoice(8) {
+	case 0:
+		err = c1.Mail("secret@v", &MailOptions{Size: 7, RequireTLS: true})
+	case 1:
+		err = c1.Mail("secret@v", &MailOptions{Size: 7, UTF8: true})
+	case 2:
+		err = c1.Mail("secret@v", &MailOptions{Return: DSNReturn("BOTH")})
+	case 3:
+		err = c1.Mail("secret@v", &MailOptions{Return: DSNReturnFull, EnvelopeID: bad})
+	case 4:
+		err = c1.Mail("secret@v", &MailOptions{Auth: &bad})
+	case 5:
+		err = c1.Rcpt("secret@v", &RcptOptions{Notify: []DSNNotify{DSNNotifyNever, DSNNotifySuccess}})
+	case 6:
+		err = c1.Rcpt("secret@v", &RcptOptions{Notify: []DSNNotify{DSNNotifyFailure}, OriginalRecipient: "x@y", OriginalRecipientType: DSNAddressType("x400")})
+	case 7:
+		err = c1.Rcpt("secret@v", &RcptOptions{OriginalRecipient: bad, OriginalRecipientType: DSNAddressTypeRFC822})
+	}
+	verifAssert(err != nil && len(vc1.out) == 0, "C15.after-refusal-first-call-refused-locally")
+	c2, vc2 := c1, vc1
+	if nondetBool() {
+		c2, vc2 = mk()
+	}
+	var want string
+	if nondetBool() {
+		err = c2.Mail("b@v", &MailOptions{Size: 5})
+		want = "MAIL FROM:<b@v> BODY=8BITMIME SIZE=5\r\n"
+	} else {
+		err = c2.Rcpt("c@v", nil)
+		want = "RCPT TO:<c@v>\r\n"
+	}
+	verifObserve("c15after", vc2.out, err == nil)
+	verifAssert(err == nil, "C15.after-refusal-next-call-works")
+	verifAssert(string(vc2.out) == want, "C15.after-refusal-next-call-writes-exactly-its-own-line")
+	verifReach("C15.after-refusal-end")
+}
